@@ -80,8 +80,11 @@ EvIter(e) ==
         /\ P("C03", "columns match proposals", ColumnsS(post))
         \* ---- C17
         /\ P("C17", "threshold is the likelihood of a live sample", e.pre_remove.thr_is_live)
-        /\ P("C17", "at least min_remove removed, not all",
-                e.replace_all \/ (e.n_removed >= e.min_remove /\ e.n_removed < e.pre_remove.n_live))
+        \* exactly min_samples kept when the method's choice would leave fewer, otherwise >= min_remove removed
+        /\ P("C17", "at least min_remove removed (or exactly min_samples kept), not all",
+                e.replace_all \/ (/\ e.n_removed < e.pre_remove.n_live
+                                  /\ \/ e.n_removed >= e.min_remove
+                                     \/ e.pre_remove.n_live - e.n_removed = e.min_samples))
         /\ P("C17", "trained on at least min_samples", e.train_n >= e.min_samples)
         /\ P("C04", "reported number removed",
                 e.n_removed = (IF e.replace_all THEN e.pre_remove.n_live ELSE e.pre_remove.n_below))
